@@ -17,6 +17,10 @@
                    first.  A plan holds at most one such node; Seal unfolds it: the field instances below it are copied for item 1
                    (item = 1, of = the instance of item 0 they copy) and appended to the table, so that Kids(lobj) lists the
                    instances of item 0 and then those of item 1 - the order Executor.complete_list_value starts them in
+           lfail   resolver returns, for a field of type [T], a LAZY iterable that yields two objects and then raises the library's
+                   ResolverError: the list cannot be produced - null with one error at the field's position - and NONE of the
+                   objects it had already yielded is completed (no resolver below the field is invoked: in a mutation nothing
+                   of this field may still be running when the next top-level field starts)
            argerr  the field's ARGUMENTS fail coercion at execution time (an explicit null reaches `x: Int! = 3` through a nullable
                    variable): the resolver is never invoked, the field is null with one error, and it settles at once whatever its mode
      mode: def = the resolver's result becomes available later (pool task / coroutine), sync = in line.
@@ -32,7 +36,7 @@ EXTENDS Naturals, Sequences, FiniteSets, TLC, Json, SequencesExt
 CONSTANTS MaxNodes,  \* maximal number of field instances in a plan
           OpKinds,   \* subset of {"query", "mutation"}
           Modes      \* subset of {"def", "sync"}
-Outs == {"val", "null", "nullnn", "err", "crash", "obj", "sernull", "sernullnn", "lval", "lnn", "argerr", "lobj"}
+Outs == {"val", "null", "nullnn", "err", "crash", "obj", "sernull", "sernullnn", "lval", "lnn", "argerr", "lobj", "lfail"}
 Composite == {"obj", "lobj"}
 NodeChoices == {[mode |-> m, out |-> o] : m \in Modes, o \in Outs}
 VARIABLES phase, op, nodes, st, steps, failed, init0, inv
@@ -114,14 +118,14 @@ Quiescent == phase = "run" /\ (failed \/ Pending(st) = {})
 \* ---- reference result (denotational, schedule independent): data tree and error positions --------------------
 RECURSIVE Data(_)
 Data(n) == CASE Nd(n).out = "val" -> [k |-> "val"]
-             [] Nd(n).out \in {"null", "nullnn", "err", "sernull", "sernullnn", "argerr"} -> [k |-> "null"]
+             [] Nd(n).out \in {"null", "nullnn", "err", "sernull", "sernullnn", "argerr", "lfail"} -> [k |-> "null"]
              [] Nd(n).out = "lval" -> [k |-> "lval"]
              [] Nd(n).out = "lnn" -> [k |-> "lnn"]
              [] Nd(n).out = "obj" -> [k |-> "obj", kids |-> [i \in 1..Len(Kids(n)) |-> [id |-> Kids(n)[i], v |-> Data(Kids(n)[i])]]]
              [] Nd(n).out = "lobj" -> [k |-> "lobj", kids |-> [i \in 1..Len(Kids(n)) |-> [id |-> Kids(n)[i], item |-> Nd(Kids(n)[i]).item, v |-> Data(Kids(n)[i])]]]
              [] OTHER -> [k |-> "crash"]
 Reachable(n) == \A a \in Anc(nodes, n) \ {0, n} : Nd(a).out \in Composite
-ErrNodes == {n \in 1..NN : Reachable(n) /\ Nd(n).out \in {"nullnn", "err", "sernullnn", "lnn", "argerr"}}
+ErrNodes == {n \in 1..NN : Reachable(n) /\ Nd(n).out \in {"nullnn", "err", "sernullnn", "lnn", "argerr", "lfail"}}
 Crashes == \E n \in 1..NN : Reachable(n) /\ Nd(n).out = "crash"
 
 \* ---- properties ---------------------------------------------------------------------------------------------------
